@@ -82,9 +82,101 @@ def probe():
   return {'F26-jit-stale-trace-closure': {'fails': bool(bad), 'stale_calls': bad[:5], 'count': len(bad)}}
 
 
+def jit_method_family(cases):
+  """nn.jit on a METHOD of a setup-style module whose sub-modules are bound before the jitted call and used in plain code
+  around it; the keys drawn (before / inside / after, on the first and on later applies = trace and cache hits) must be
+  those of the same module without the decorator"""
+  import flax.linen as nn
+  import numpy as np
+  out = []
+  for c in cases:
+    def build_class(use_jit, c=c):
+      # a reused nn.jit CLASS whose instance is called several times in one forward pass; its children draw keys
+      class Inner(nn.Module):
+        @nn.compact
+        def __call__(self, x):
+          return [jax.random.key_data(self.make_rng('noise')).astype(jnp.int64)]
+
+      class Sub(nn.Module):
+        @nn.compact
+        def __call__(self, x):
+          ks = []
+          if c['own']:
+            ks.append(jax.random.key_data(self.make_rng('noise')).astype(jnp.int64))
+          for _ in range(c['depth']):
+            ks = ks + Inner()(x)
+          return ks
+      JSub = nn.jit(Sub) if use_jit else Sub
+
+      class Top(nn.Module):
+        @nn.compact
+        def __call__(self, x):
+          s = JSub()
+          ks = []
+          for _ in range(c['inside'] + 1):
+            ks = ks + s(x)
+          ks.append(jax.random.key_data(self.make_rng('noise')).astype(jnp.int64))
+          return ks
+      return Top()
+
+    def build(use_jit, c=c):
+      if c.get('kind') == 'class':
+        return build_class(use_jit)
+
+      class Noise(nn.Module):
+        depth: int = 1
+
+        def setup(self):
+          if self.depth > 1:
+            self.sub = Noise(self.depth - 1)
+
+        def __call__(self, x):
+          ks = [jax.random.key_data(self.make_rng('noise')).astype(jnp.int64)]
+          if self.depth > 1:
+            ks = ks + self.sub(x)
+          return ks
+
+      class Net(nn.Module):
+        def setup(self):
+          self.noise = Noise(c['depth'])
+
+        def part(self, x):
+          ks = []
+          for _ in range(c['inside']):
+            ks = ks + self.noise(x)
+          if c['own']:
+            ks.append(jax.random.key_data(self.make_rng('noise')).astype(jnp.int64))
+          return ks
+        if use_jit:
+          part = nn.jit(part)
+
+        def __call__(self, x):
+          ks = []
+          for step in c['seq']:
+            ks = ks + (self.noise(x) if step == 'plain' else self.part(x))
+          return ks
+      return Net()
+    try:
+      res = {}
+      for use_jit in (False, True):
+        m = build(use_jit)
+        runs = []
+        for _ in range(c['applies']):
+          ks = m.apply({}, jnp.zeros((2,)), rngs={'noise': jax.random.key(c['seed'])})
+          runs.append([[int(a) for a in np.asarray(k).reshape(-1)] for k in ks])
+        res['jit' if use_jit else 'plain'] = runs
+      out.append({'ok': res})
+    except Exception as e:  # pylint: disable=broad-except
+      import traceback
+      out.append({'err': type(e).__name__, 'tb': traceback.format_exc()[-600:]})
+  return out
+
+
 def main(payload):
   if payload.get('probe'):
     return probe()
+  if payload.get('jit_methods') is not None:
+    return {'jit_methods': jit_method_family(payload['jit_methods'])}
   res = []
   for i, c in enumerate(payload['cases']):
     try:
